@@ -183,7 +183,7 @@ func perms(n int) [][]int {
 }
 
 // MapKeys returns the keys of m in the order the explorer chose (sorted by default).
-// Without an active seam it returns them in Go's own (random) order.
+// Without an active seam it returns them in Go's own (random) order - sorted while the scheduler runs.
 func MapKeys[M ~map[string]V, V any](m M, site string) []string {
 	keys := make([]string, 0, len(m))
 	for k := range m {
@@ -193,6 +193,11 @@ func MapKeys[M ~map[string]V, V any](m M, site string) []string {
 		access(mapPtr(m), 8, false, site)
 	}
 	if !mapOrderActive {
+		if active {
+			// under the scheduler an execution is a function of its schedule: one fixed key order (the orders
+			// themselves are the map-order seam's subject)
+			sort.Strings(keys)
+		}
 		return keys
 	}
 	MapRanges++
